@@ -116,7 +116,7 @@ def _required():
         req["class:" + cls] = 10
     req["class:yield_strain_below_guard"] = 10
     req["logstretch_gt1_steps"] = 300
-    req["logstretch_gt2_steps"] = 40
+    req["logstretch_gt2_steps"] = 25
     req["guard_active_beyond_yield_steps"] = 30
     return req
 
